@@ -76,6 +76,10 @@ func (m MemoryCache) Remove(key []byte) error {
 
 func (m MemoryCache) Iterator(height int64, start, end []byte) (types.Iterator, error) {
 	if m.isHeightSafeToRead(height) {
+		if end != nil && len(end) == 0 {
+			// an empty (non-nil) end excludes every key; only a nil end is open, as for the tree iterators
+			return &MemoryHeightIterator{endIdx: -1, startIdx: 1}, nil
+		}
 		for _, v := range m.pastHeights {
 			if v.height == height {
 				return NewMemoryHeightIterator(v.data, string(start), string(end), v.orderedKeys, true), nil
@@ -87,6 +91,9 @@ func (m MemoryCache) Iterator(height int64, start, end []byte) (types.Iterator, 
 
 func (m MemoryCache) ReverseIterator(height int64, start, end []byte) (types.Iterator, error) {
 	if m.isHeightSafeToRead(height) {
+		if end != nil && len(end) == 0 {
+			return &MemoryHeightIterator{endIdx: -1, startIdx: 1}, nil
+		}
 		for _, v := range m.pastHeights {
 			if v.height == height {
 				return NewMemoryHeightIterator(v.data, string(start), string(end), v.orderedKeys, false), nil
